@@ -27,18 +27,18 @@ NONTRIVIAL = {
 # (family, quick K, thorough K)
 BATTERY = {
     "C01": [("rand", 500, 30000), ("stop", 300, 10000), ("dead", 150, 6000), ("ties", 60, 640),
-            ("tiny", 60, 324), ("edit", 100, 5000)],
+            ("tiny", 60, 324), ("edit", 100, 5000), ("slow", 40, 108)],
     "C04": [("rand", 500, 30000), ("stop", 300, 10000), ("ties", 120, 640), ("dead", 100, 4000),
             ("tiny", 60, 324)],
     "C02": [("stop", 700, 40000), ("dead", 250, 12000), ("ties", 60, 640), ("tiny", 60, 324),
-            ("bigrew", 36, 36)],
+            ("bigrew", 36, 36), ("slow", 40, 108)],
     "C03": [("dead", 400, 20000), ("rand", 400, 20000), ("stop", 200, 8000), ("tiny", 80, 324),
             ("nonabs", 100, 504)],
     "C05": [("stop", 700, 40000), ("dead", 200, 8000), ("ties", 120, 640), ("nonabs", 120, 504),
-            ("bigrew", 36, 36)],
+            ("bigrew", 36, 36), ("diag", 80, 160)],
     "C06": [("stop", 600, 30000), ("dead", 300, 20000), ("rand", 200, 8000), ("tiny", 60, 324),
-            ("edit", 120, 6000), ("nonabs", 100, 504)],
-    "C14": [("stop", 800, 40000), ("dead", 250, 12000)],
+            ("edit", 120, 6000), ("nonabs", 100, 504), ("slow", 40, 108)],
+    "C14": [("stop", 800, 40000), ("dead", 250, 12000), ("diag", 160, 160), ("nonabs", 60, 504)],
     "C10": [("hist", 250, 12000), ("edit", 120, 6000)],
     "C13": [("perm", 400, 20000)],
 }
@@ -183,6 +183,26 @@ def big_sessions(prop, tier, seed, repo):
                 named.append((os.path.basename(path) + ":" + k, g))
         except Exception:
             continue
+    # hand-built games beyond the exact domain
+    # (a) a corridor of ascending states: the value travels one state per sweep (> 1000 sweeps)
+    ncor = 1100 if tier == "quick" else 2600
+    owners = ["Probabilistic", "Player 1", "Player 2"]
+    cor = {"rewards": [0] * (ncor + 2), "players": ["Probabilistic"] + [owners[i % 3] for i in range(1, ncor - 1)]
+           + ["Probabilistic", "Probabilistic", "Probabilistic"],
+           "transition_list": [[(0.5, ncor), (0.5, 1)]]
+           + [([(1, i + 1)] if owners[i % 3] == "Probabilistic" else [("f", i + 1)]) for i in range(1, ncor - 1)]
+           + [[(1, ncor)]] + [[(1, ncor)], [(1, ncor + 1)]],
+           "final_states": [ncor]}
+    if prop in ("C01", "C02", "C06"):
+        named.append(("corridor%d" % ncor, cor))
+    # (b) a value of 1e-10 (two hops of 1e-5) next to dead states: positive, hence live
+    for o in ("Player 1", "Player 2", "Probabilistic"):
+        first = [(0.5, 1), (0.5, 3)] if o == "Probabilistic" else [("a", 1), ("b", 3)]
+        named.append(("tiny2/" + o, {
+            "rewards": [1, 2, 3, 1, 0, 0], "players": [o] + ["Probabilistic"] * 5,
+            "transition_list": [first, [(0.00001, 2), (0.99999, 4)], [(0.00001, 5), (0.99999, 4)],
+                                [(0.5, 1), (0.5, 4)], [(1, 4)], [(1, 5)]],
+            "final_states": [5]}))
     sessions = []
     for name, desc in named:
         try:
@@ -194,7 +214,7 @@ def big_sessions(prop, tier, seed, repo):
                 continue                        # probabilities that are not multiples of 1e-6
         except Exception:
             continue
-        s = {"fam": "big", "exact": False, "budget": 25.0, "name": name}
+        s = {"fam": "big", "exact": False, "budget": 90.0 if name.startswith("corridor") else 10.0, "name": name}
         if prop == "C13":
             h, rel = permute_game(g, rng)
             s["descs"] = [g, h]
@@ -326,13 +346,13 @@ def run(prop, tier, seed, repo):
                 b["tid"] = len(sessions) + 1
                 sessions.append(b)
             res.notes["big_sessions"] = sum(1 for x in sessions if x["fam"] == "big")
-        sf.record(sessions, repo, budget=10.0)
         t2 = time.time()
-        verdicts, st = sf.validate(sessions, work, timeout=6 * 3600)
+        verdicts, st = sf.record_validate(sessions, repo, work, budget=10.0,
+                                          long_budget=300.0 if tier == "quick" else 1800.0)
         t3 = time.time()
+        res.notes["rerun_with_long_budget"] = st["rerun_with_long_budget"]
         res.notes["time.generate_s"] = round(t1 - res.t0, 1)
-        res.notes["time.record_s"] = round(t2 - t1, 1)
-        res.notes["time.validate_s"] = round(t3 - t2, 1)
+        res.notes["time.record_validate_s"] = round(t3 - t2, 1)
         nontrivial = judge(prop, sessions, verdicts, res, known_open)
         cov = res.coverage
         cov["evaluations"] = len(sessions)
